@@ -88,12 +88,16 @@ func ToURL(ma multiaddr.Multiaddr) (*url.URL, error) {
 	}
 
 	path := ""
+	// The string value of an http-path component is query-escaped by the
+	// multiaddr transcoder; the legacy httpath component is path-escaped.
+	unescape := url.QueryUnescape
 	pb, ok := pm[multiaddr.P_HTTP_PATH]
 	if !ok {
 		pb, ok = pm[oldProtoHTTPath.Code]
+		unescape = url.PathUnescape
 	}
 	if ok {
-		path, err = url.PathUnescape(pb)
+		path, err = unescape(pb)
 		if err != nil {
 			path = ""
 		}
@@ -145,7 +149,7 @@ func FromURL(u *url.URL) (multiaddr.Multiaddr, error) {
 
 	joint := multiaddr.Join(*addr, http)
 	if u.Path != "" {
-		httppath, err := multiaddr.NewComponent(multiaddr.ProtocolWithCode(multiaddr.P_HTTP_PATH).Name, url.PathEscape(u.Path))
+		httppath, err := multiaddr.NewComponent(multiaddr.ProtocolWithCode(multiaddr.P_HTTP_PATH).Name, url.QueryEscape(u.Path))
 		if err != nil {
 			return nil, err
 		}
